@@ -6,10 +6,10 @@ from vlib.core import coqbool
 
 OBLIGATIONS = dict(
     prop_file='Properties/C20.v',
-    glue=['Glue/CoreGlue.v', 'Glue/InventoryFacts.v'] + [f'Glue/Pin_{n}.v' for n in ('w_simvq', 'w_rpq', 'w_fsq', 'w_lfq', 'w_rfsq', 'w_rlfq', 'w_rsvq', 'o_rpq_eval', 'p_simvq_codebook')],
+    glue=['Glue/CoreGlue.v', 'Glue/InventoryFacts.v'] + [f'Glue/Pin_{n}.v' for n in ('w_simvq', 'w_rpq', 'w_fsq', 'w_lfq', 'w_rfsq', 'w_rlfq', 'w_rsvq', 'o_rpq_eval', 'p_simvq_codebook')] + ['Glue/Pin_fp_C20.v'],
     extra=['Model/Params.vo'],
     gen_items=['inv_simvq', 'inv_rpq', 'inv_fsq', 'inv_lfq', 'inv_rfsq', 'inv_rlfq', 'inv_rsvq', 'inv_cosine', 'w_simvq', 'w_rpq', 'w_fsq', 'w_lfq', 'w_rfsq', 'w_rlfq', 'w_rsvq',
-               'o_rpq_eval', 'p_simvq_codebook', 'g_cosine_embed_is_param', 'g_cosine_ema', 'g_cosine_update_ema', 'g_cosine_expire', 'g_cosine_kmeans'],
+               'o_rpq_eval', 'p_simvq_codebook', 'g_cosine_embed_is_param', 'g_cosine_ema', 'g_cosine_update_ema', 'g_cosine_expire', 'g_cosine_kmeans', 'fp_C20'],
 )
 ASSUMPTIONS = [
     'torch optimisers write parameters only (modelled as "an optimiser step may put ANY value into any nn.Parameter and nothing else"); validated by the bit-exact buffer comparison around real SGD/Adam(+weight decay) steps',
